@@ -403,6 +403,9 @@ type PrintOpts struct {
 	SelfClose bool // empty elements as <x/>
 	Quote     byte
 	AttrPerm  func(n int) []int
+	// white space inside tags where XML allows it and it means nothing: before '>' and '/>', around '=', between attributes
+	// (a space, several spaces, a line break); picks one spelling per place
+	TagSpace func() string
 }
 
 func (n *Node) MJML() string { return n.Print(PrintOpts{}) }
@@ -448,17 +451,28 @@ func (n *Node) print(b *strings.Builder, o PrintOpts, depth int) {
 			v = strings.ReplaceAll(strings.ReplaceAll(a[1], "&", "&amp;"), "<", "&lt;")
 			v = strings.ReplaceAll(v, "'", "&apos;")
 		}
-		b.WriteString(" " + a[0] + "=" + string(q) + v + string(q))
+		sp, eq := " ", "="
+		if o.TagSpace != nil {
+			if t := o.TagSpace(); t != "" {
+				sp = t
+			}
+			eq = o.TagSpace() + "=" + o.TagSpace()
+		}
+		b.WriteString(sp + a[0] + eq + string(q) + v + string(q))
+	}
+	ts := ""
+	if o.TagSpace != nil {
+		ts = o.TagSpace()
 	}
 	if len(n.Kids) == 0 && n.Text == "" {
 		if o.SelfClose {
-			b.WriteString("/>")
+			b.WriteString(ts + "/>")
 		} else {
-			b.WriteString("></" + n.Tag + ">")
+			b.WriteString(ts + "></" + n.Tag + ts + ">")
 		}
 		return
 	}
-	b.WriteString(">")
+	b.WriteString(ts + ">")
 	if n.Text != "" {
 		b.WriteString(n.Text)
 	}
@@ -470,6 +484,10 @@ func (n *Node) print(b *strings.Builder, o PrintOpts, depth int) {
 	}
 	if len(n.Kids) > 0 && !isContentTag(n.Tag) {
 		ind(depth)
+	}
+	if o.TagSpace != nil {
+		b.WriteString("</" + n.Tag + o.TagSpace() + ">")
+		return
 	}
 	b.WriteString("</" + n.Tag + ">")
 }
